@@ -164,7 +164,22 @@ def ts_join(rng):
     if extra == 'foreign':
         conds.append('t.other = 1')
     if conds:
-        s += ' WHERE ' + ' AND '.join(conds)
+        # the same conjunction written flat, or with a parenthesised group on the right / on the left
+        if len(conds) >= 2 and pf and r.random() < 0.5:
+            g = next(c for c in conds if c.startswith('t.g ='))
+            conds.insert(r.randrange(len(conds) + 1), g)          # the partition filter stated twice: same meaning
+        nest = r.choice(['flat', 'flat', 'right', 'left', 'each']) if len(conds) >= 2 else 'flat'
+        if nest == 'right' and len(conds) >= 3:
+            where = conds[0] + ' AND (' + ' AND '.join(conds[1:]) + ')'
+        elif nest == 'right':
+            where = conds[0] + ' AND (' + conds[1] + ')'
+        elif nest == 'left' and len(conds) >= 3:
+            where = '(' + ' AND '.join(conds[:-1]) + ') AND ' + conds[-1]
+        elif nest == 'each':
+            where = ' AND '.join('(' + c + ')' for c in conds)
+        else:
+            where = ' AND '.join(conds)
+        s += ' WHERE ' + where
     if extra == 'group':
         s += ' GROUP BY t.g'
     if extra == 'order':
